@@ -12,7 +12,7 @@
    C32_infer_stable gives a syntactic sufficient condition for getter_agrees. *)
 From Coq Require Import String.
 From Coq Require Import List Bool NArith.
-From MV Require Import Base.Bytes Model.MsgText Proofs.MsgTextCodec Proofs.MsgTextParse Proofs.MsgTextMain.
+From MV Require Import Base.Bytes Model.MsgText Proofs.MsgTextCodec Proofs.MsgTextParse Proofs.MsgTextMain Proofs.MsgTextBom.
 Import ListNotations.
 Local Open Scope N_scope.
 
@@ -72,6 +72,24 @@ Theorem C32_roundtrip_exact : forall C m s m' strict,
   get_text C m' strict = GStr s.
 Proof. exact roundtrip_exact. Qed.
 Print Assumptions C32_roundtrip_exact.
+
+(* exact characterisation of the BOM finding on the default path (no charset, no sniffed media type,
+   e.g. no Content-Type at all): Latin-1 text reads back IF AND ONLY IF its bytes carry no BOM *)
+Theorem C32_default_roundtrip_iff : forall C m s,
+  plain_ct (ctype_str m) -> latin1_text s ->
+  let m' := {| ctype := ctype m; content := Some (map Nb s) |} in
+  set_text C m (Some s) = SetOk m'
+  /\ (get_text C m' true = GStr s <-> bom_encoding (map Nb s) = None).
+Proof. exact default_roundtrip_iff. Qed.
+Print Assumptions C32_default_roundtrip_iff.
+
+Theorem C32_no_ctype_roundtrip_iff : forall C s, latin1_text s ->
+  set_text C {| ctype := None; content := None |} (Some s)
+    = SetOk {| ctype := None; content := Some (map Nb s) |}
+  /\ (get_text C {| ctype := None; content := Some (map Nb s) |} true = GStr s
+      <-> bom_encoding (map Nb s) = None).
+Proof. exact no_ctype_roundtrip_iff. Qed.
+Print Assumptions C32_no_ctype_roundtrip_iff.
 
 (* syntactic sufficient condition for getter_agrees *)
 Theorem C32_infer_stable : forall ct b,
